@@ -1180,6 +1180,13 @@ impl Walrus {
 
                 buf_offset += entry_consumed;
             }
+
+            // Entries are returned as one contiguous run: if this range was not parsed to
+            // its end (byte budget, entry cap, incomplete or unreadable entry), nothing
+            // of the ranges behind it may be returned, or the rest of this one is skipped.
+            if buf_offset < buffer.len() {
+                break;
+            }
         }
 
         // 5) Commit progress (optional)
